@@ -33,8 +33,10 @@ LEVEL_TEXT = ("Machine-checked for the tree as it is now (all repairs found by t
               "paths; any number of steps separated by '/' or '//'; axes child/attribute, abbreviated or spelled out "
               "(child::, attribute::); node tests NCName, *, prefix:NCName, prefix:*, text(), comment(), "
               "processing-instruction(), processing-instruction('lit'), node(); any lists of the predicates [k], [last()], "
-              "[position()=k], [position()!=last()], [position()<last()], [last()=k], [last()>k], [last()-1], [@x], [x], "
-              "[not(@x)]; and id()/key()-leading paths (idkey_match_iff_select). Further theorems: the per-alternative "
+              "[position()=k], [position()!=last()], [position()<last()], [last()=k], [last()>k], [last()-1], the computed "
+              "number-valued [a+b], [a div b], [ceiling(a div b)], [-k], [count(x)], [count(../x)], [string-length(@x)], "
+              "[number(@x)] (positional whatever their form: number_valued_predicate_is_positional, with the shape of "
+              "doStepPredicate regenerated from the source), and [@x], [x], [not(@x)]; and id()/key()-leading paths (idkey_match_iff_select). Further theorems: the per-alternative "
               "entry point and the union (alternative_entry_point, union_first_match), explicit axes compile like "
               "abbreviated ones in every compiler branch (explicit_axis_irrelevant), one matcher step = the forward step "
               "from the parent and handleFoundIndex is exact (step_matches_iff_selected, handleFoundIndex_spec, "
@@ -82,6 +84,7 @@ THEOREMS = [
     "XalanModel.Props.C09.alternative_entry_point",
     "XalanModel.Props.C09.target_data_complete",
     "XalanModel.Props.C09.keytable_visits_complete",
+    "XalanModel.Props.C09.number_valued_predicate_is_positional",
 ]
 
 
@@ -835,6 +838,7 @@ def run(ctx):
     # KeyTable constructor's walk; target_data_complete / keytable_visits_complete are re-checked against them
     ctx.translate("c10_priority")
     ctx.translate("c09_keytable")
+    ctx.translate("c09_steppredicate")
     ctx.lean("XalanModel.Props.C09", THEOREMS, extra_targets=["xm_c09"])
     model = ctx.exe("xm_c09")
     harness = common.build_harness("c09_patterns", ["c09_patterns.cpp"], flavor="hooks")
